@@ -165,12 +165,13 @@ func genAcceptedish(t *rapid.T, big bool) (string, []byte) {
 }
 
 func TestC09(t *testing.T) {
+	defer harness.Uncaught(t)
 	harness.RapidCheck(t, harness.Scale(6000, 50000), 9, func(rt *rapid.T) {
 		big := rapid.IntRange(0, 29).Draw(rt, "big?") == 0
 		kind, b := genAcceptedish(rt, big)
 		c := c09Case{B: b}
 		harness.Eval(subC09.Name, 1)
-		ps, err := rtcp.Unmarshal(append([]byte(nil), b...))
+		ps, err := safeUnmarshal(b)
 		if err == nil {
 			harness.Class("accepted:"+kind, 1)
 			var out []byte
